@@ -5,7 +5,7 @@
    The 2^31 - 2^17 bound on each submitted stream is part of the theorem: with a 32-bit
    sequence space and unbounded duplication/delay the statement is false without it. *)
 From Elvis Require Import Model.Base Model.U32 Model.Tcb Model.TcpNet
-  Proofs.TcbSafetyDefs Proofs.TcbSafetyEx Proofs.TcbSafetyThms Proofs.TcbLiveSys Proofs.TcbLiveThm Proofs.TcbLiveEnd Proofs.TcbLiveWinRound Proofs.TcbLiveLossRound Proofs.TcbHeap.
+  Proofs.TcbSafetyDefs Proofs.TcbSafetyEx Proofs.TcbSafetyThms Proofs.TcbLiveSys Proofs.TcbLiveThm Proofs.TcbLiveEnd Proofs.TcbLiveWinRound Proofs.TcbLiveLossRound Proofs.TcbHeap Proofs.TcbLiveMidRound.
 From Coq Require Import Permutation.
 Local Open Scope Z_scope.
 
@@ -245,3 +245,22 @@ Theorem C01_heap_multiset : forall (base : Z) (v : list segment),
   end.
 Proof. exact heap_multiset_explicit. Qed.
 Print Assumptions C01_heap_multiset.
+
+(* one segment lost at an ARBITRARY position of the flight (index i < nseg, dropped by [LDrop x i]):
+   the segments behind the gap are parked in the reassembly heap (any number of them - this uses
+   the heap theorems above), the retransmission timer fires in the next loss-free round, the whole
+   flight is retransmitted, the gap is filled and the heap is drained in sequence order; after two
+   rounds every byte has been delivered exactly once and in order, everything is acknowledged and
+   the system is quiescent.  (Partial w.r.t. the full property: an arbitrary SUBSET of the flight
+   lost - more than one gap - is not covered; the tail case is C01_liveness_tail_loss_partial.) *)
+Theorem C01_liveness_one_loss_partial : forall (c : config) (s : sys) (a b : Z) (x : side) (bytes : list Z),
+  Quiescent c s a b -> 0 < zlen bytes <= 65535 ->
+  let s1 := run c s [LSend x bytes; LEmit x] in
+  let nseg := length (net_of s1 x) in
+  forall i, (i < nseg)%nat ->
+  let s' := run c s1 [LDrop x i; LFair 2] in
+  (exists a' b', Quiescent c s' a' b') /\
+  sub_of s' x = sub_of s x ++ bytes /\ sub_of s' (other x) = sub_of s (other x) /\
+  delivered s' (other x) = delivered s (other x) ++ bytes /\ delivered s' x = delivered s x.
+Proof. exact one_loss_explicit. Qed.
+Print Assumptions C01_liveness_one_loss_partial.
